@@ -88,6 +88,11 @@ type SessSpec struct {
 	RollbackMitigation bool          `json:"rollback_mitigation,omitempty"`
 	HealthCheck bool                 `json:"health_check,omitempty"`
 	HCTimeoutMs int                  `json:"hc_timeout_ms,omitempty"`
+	Replicas   int                   `json:"replicas,omitempty"`
+	UnassignedReplicas map[int][]int `json:"unassigned_replicas,omitempty"` // vb -> replica indexes that are -1 in the cluster map
+	ObserveInit map[string][2]uint64 `json:"observe_init,omitempty"` // "vb:replica" -> (uuid selector 0=current branch | explicit, persisted)
+	RMIntervalMs int                 `json:"rm_interval_ms,omitempty"`
+	GatedVB    int                   `json:"gated_vb,omitempty"` // C07: the vBucket whose replica reports are scripted (others are fully persisted)
 	Highs      map[int]uint64        `json:"highs,omitempty"`       // scripted vBucket high seqnos (synthetic, no items needed)
 	CollHighs  map[int]uint64        `json:"coll_highs,omitempty"`  // scripted high seqno of the configured collections per vBucket
 	Corrupt    []int                 `json:"corrupt,omitempty"`     // vBuckets whose stored checkpoint xattr is not valid JSON (couchbase back end)
@@ -170,6 +175,7 @@ type Trace struct {
 	Metrics []*MetricScrape
 	APIPort int
 	readMu sync.Mutex
+	sess   *session
 }
 
 // PostClose is what was observed after Start() returned following a Close().
@@ -242,6 +248,7 @@ type session struct {
 	notifyWG    sync.WaitGroup
 	ehHolds     []chan struct{}
 	consHold    chan struct{}
+	obsFail     map[[2]int]string
 	stopReaders []chan struct{}
 	readerWG    sync.WaitGroup
 }
@@ -330,7 +337,7 @@ func RunSession(spec *SessSpec) *Trace {
 	if spec.Nodes == 0 {
 		spec.Nodes = 1
 	}
-	env, err := hx.NewEnv(hx.EnvOpts{NumVB: spec.NumVB, Nodes: spec.Nodes, Seed: spec.AckSeed})
+	env, err := hx.NewEnv(hx.EnvOpts{NumVB: spec.NumVB, Nodes: spec.Nodes, Replicas: spec.Replicas, Seed: spec.AckSeed})
 	if err != nil {
 		tr.StartErr = err.Error()
 		return tr
@@ -350,6 +357,20 @@ func RunSession(spec *SessSpec) *Trace {
 			env.Sim.Append(uint16(vb), its)
 		}
 	}
+	for vb, idxs := range spec.UnassignedReplicas {
+		for _, ix := range idxs {
+			env.Sim.SetReplicaNode(uint16(vb), ix, -1)
+		}
+	}
+	for k, v := range spec.ObserveInit {
+		var vb, ix int
+		fmt.Sscanf(k, "%d:%d", &vb, &ix)
+		uu := v[0]
+		if uu == 0 {
+			uu = env.Sim.FailoverCopy(uint16(vb))[0].UUID
+		}
+		env.Sim.SetObserve(uint16(vb), ix, uu, v[1])
+	}
 	for vb, h := range spec.Highs {
 		env.Sim.SetHigh(uint16(vb), h)
 	}
@@ -365,6 +386,29 @@ func RunSession(spec *SessSpec) *Trace {
 			f = append(f, cbsim.Failover{UUID: e[0], Seq: e[1]})
 		}
 		env.Sim.SetFailover(uint16(vb), f)
+	}
+	if spec.RollbackMitigation {
+		prevHook := env.Sim.Hook
+		env.Sim.Hook = func(r *cbsim.Req) *cbsim.Action {
+			if r.Op == cbsim.OpObserveSeqno {
+				sess := tr.sess
+				if sess != nil {
+					sess.pmu.Lock()
+					mode := sess.obsFail[[2]int{int(r.VB), r.Replica}]
+					sess.pmu.Unlock()
+					switch mode {
+					case "tmpfail":
+						return &cbsim.Action{HasStatus: true, Status: cbsim.StTmpFail}
+					case "busy":
+						return &cbsim.Action{HasStatus: true, Status: cbsim.StBusy}
+					}
+				}
+			}
+			if prevHook != nil {
+				return prevHook(r)
+			}
+			return nil
+		}
 	}
 	reqHoldCh := make(chan struct{})
 	if len(spec.Rollbacks) > 0 || len(spec.ReqFail) > 0 || len(spec.ReqHold) > 0 {
@@ -403,6 +447,7 @@ func RunSession(spec *SessSpec) *Trace {
 	for _, n := range spec.FailSaves {
 		s.failSet[n] = true
 	}
+	tr.sess = s
 	cfg := env.BaseConfig()
 	if spec.GroupName != "" {
 		cfg.Dcp.Group.Name = spec.GroupName
@@ -499,6 +544,9 @@ func RunSession(spec *SessSpec) *Trace {
 	}
 	if spec.RollbackMitigation {
 		cfg.RollbackMitigation.Disabled = false
+		if spec.RMIntervalMs > 0 {
+			cfg.RollbackMitigation.Interval = time.Duration(spec.RMIntervalMs) * time.Millisecond
+		}
 	}
 	if spec.HealthCheck {
 		cfg.HealthCheck.Disabled = false
@@ -865,6 +913,27 @@ func RunSession(spec *SessSpec) *Trace {
 			}
 		case "waitpingfail":
 			hx.WaitFor(8*time.Second, func() bool { return env.Log.Count("sim.pingfail") >= 1 })
+		case "observe": // script one replica's answer: VB, N = replica index, St = persisted seqno, Ms = uuid (0 = current branch)
+			uu := uint64(st.Ms)
+			if uu == 0 {
+				uu = env.Sim.FailoverCopy(uint16(st.VB))[0].UUID
+			}
+			env.Sim.SetObserve(uint16(st.VB), st.N, uu, uint64(st.St))
+			env.Log.Add(evlog.Rec{K: "ctl.observe", VB: st.VB, A: uu, B: uint64(st.N), Seq: uint64(st.St)})
+		case "observefail": // the replica answers TMPFAIL (Sel "tmpfail"), BUSY ("busy") or normally ("ok") from now on
+			s.pmu.Lock()
+			if s.obsFail == nil {
+				s.obsFail = map[[2]int]string{}
+			}
+			s.obsFail[[2]int{st.VB, st.N}] = st.Sel
+			s.pmu.Unlock()
+		case "waitrounds": // wait until N further complete observe rounds were answered for the vBucket
+			vbw, want := st.VB, st.N
+			base := env.Log.Filter(func(r evlog.Rec) bool { return r.K == "sim.tx" && r.Op == cbsim.OpObserveSeqno && r.VB == vbw && r.B == 0 })
+			hx.WaitFor(8*time.Second, func() bool {
+				now := env.Log.Filter(func(r evlog.Rec) bool { return r.K == "sim.tx" && r.Op == cbsim.OpObserveSeqno && r.VB == vbw && r.B == 0 })
+				return len(now)-len(base) >= want
+			})
 		case "persistbelow": // replicas report a persisted seqno below what the vBucket holds: newer events wait in rollback mitigation
 			env.Sim.SetObserve(uint16(st.VB), 0, env.Sim.FailoverCopy(uint16(st.VB))[0].UUID, uint64(st.N))
 		case "holdcons": // the next delivery blocks inside ConsumeEvent until "releasecons"
@@ -984,7 +1053,7 @@ func RunSession(spec *SessSpec) *Trace {
 				continue
 			}
 			if r.K == "sim.rx" || r.K == "sim.tx" {
-				if r.Op != cbsim.OpDcpStreamReq && r.Op != cbsim.OpSubdocMutate && r.Op != cbsim.OpDcpCloseStream {
+				if r.Op != cbsim.OpDcpStreamReq && r.Op != cbsim.OpSubdocMutate && r.Op != cbsim.OpDcpCloseStream && !(r.Op == cbsim.OpObserveSeqno && r.K == "sim.tx" && os.Getenv("VERIF_DUMP") == "obs") {
 					continue
 				}
 			}
@@ -1253,4 +1322,14 @@ func (tr *Trace) eventCounts() map[string]int {
 		}
 	}
 	return m
+}
+
+func (tr *Trace) countOp(op int) int {
+	n := 0
+	for _, r := range tr.Log {
+		if r.K == "sim.tx" && r.Op == op {
+			n++
+		}
+	}
+	return n
 }
